@@ -465,31 +465,46 @@ impl ProcfsHandle {
         oflags.insert(OpenFlags::O_NOFOLLOW);
 
         // Do a basic lookup.
-        let basedir = self.open_base(base)?;
         let subpath = subpath.as_ref();
-        let fd = self
-            .resolver
+        let fd = self.open_noretry(base, subpath, oflags).or_else(|err| {
+            if self.is_subset && err.kind() == ErrorKind::OsError(Some(libc::ENOENT)) {
+                // If the lookup failed due to ENOENT, and the current
+                // procfs handle is "masked" in some way, try to create a
+                // temporary unmasked handle and retry the operation.
+                //
+                // The retry is only done once: if we cannot get an unmasked
+                // handle (the new handle may well be masked too -- for
+                // instance an unprivileged process on a hidepid= host), the
+                // error from that handle is as good as it gets. Retrying
+                // through Self::open() would create a new procfs handle for
+                // each level of recursion until we run out of descriptors.
+                Self::new_unmasked()
+                    // Use the old error if creating a new handle failed.
+                    .or(Err(err))?
+                    .open_noretry(base, subpath, oflags)
+            } else {
+                Err(err)
+            }
+        })?;
+
+        Ok(fd.into())
+    }
+
+    /// The lookup done by [`ProcfsHandle::open`], without the fallback to an
+    /// unmasked handle. `oflags` must already contain `O_NOFOLLOW`.
+    fn open_noretry(
+        &self,
+        base: ProcfsBase,
+        subpath: &Path,
+        oflags: OpenFlags,
+    ) -> Result<OwnedFd, Error> {
+        let basedir = self.open_base(base)?;
+        self.resolver
             .resolve(&basedir, subpath, oflags, ResolverFlags::empty())
             .and_then(|fd| {
                 self.verify_same_procfs_mnt(&fd)?;
                 Ok(fd)
             })
-            .or_else(|err| {
-                if self.is_subset && err.kind() == ErrorKind::OsError(Some(libc::ENOENT)) {
-                    // If the lookup failed due to ENOENT, and the current
-                    // procfs handle is "masked" in some way, try to create a
-                    // temporary unmasked handle and retry the operation.
-                    Self::new_unmasked()
-                        // Use the old error if creating a new handle failed.
-                        .or(Err(err))?
-                        .open(base, subpath, oflags)
-                        .map(OwnedFd::from)
-                } else {
-                    Err(err)
-                }
-            })?;
-
-        Ok(fd.into())
     }
 
     /// Safely read the contents of a symlink inside `procfs`.
